@@ -3,14 +3,20 @@ import EmbitModel.Driver.Keys
 import EmbitModel.Driver.Secp
 import EmbitModel.Model.SignWith
 import EmbitModel.Model.SignWithView
+import EmbitModel.Model.SignWithOps
 /-
   Line-protocol ops for C02X: the model of `PSBT.sign_with` over the CONCRETE secp256k1 / SHA-256 / RIPEMD-160 /
-  HMAC-SHA512 (the executable models of C07 / C09 / C10 instantiate `SignWith.Ops`), so the model produces the very
+  HMAC-SHA512 (the executable models of C07 / C09 / C10 instantiate `SignWith.Ops` through `opsOf`,
+  Model/SignWithOps.lean — the instance `SigLaws` is proved of in Props/C02Y.lean), so the model produces the very
   signatures embit produces and whole resulting PSBTs are compared.
 
     sign.run <signer> <authorised> <psbt>   ->  ok <count> <ntrace> <psbt dump>   |  none
     sign.trace <signer> <authorised> <psbt> ->  ok <count> {<input> <slot> <key> <value>}*
     sign.view <signer> <authorised> <psbt>  ->  ok <count> <bytes written to sig_stream>   (PSBTView.sign_with)
+    sign.verify <signer> <authorised> <psbt> -> ok <writes of the trace that are NOT valid> <writes>
+       (`writeValid`: the conclusion of Props/C02Y `added_sigs_valid_standards` decided per write — SEC 1 / BIP340
+        verification under the slot's key against `PSBT.sighash` of the PSBT handed in; proved to be 0 relative to the
+        curve laws, evaluated here over the executable secp256k1)
   signer := wif <secret> <compressed> | hd <HD> | keyhd <HD> (None | <fp> <n> <idx>*n) | keypub
           | desc <n> <single>*n
   The signature maps of the dumped PSBT are sorted by key (Python iterates over sets; the order of NEW entries is
@@ -19,27 +25,26 @@ import EmbitModel.Model.SignWithView
 namespace Embit.Driver.SignDrv
 open Embit Embit.Crypto Embit.Model Embit.Model.SignWith Embit.Driver Embit.Keys
 
-abbrev HD := KeyDrv.HD
-def env : Env := KeyDrv.keyEnv none none
+/-- the hash functions of the driver: SHA-256 / HMAC-SHA256 (`shaOps`, as for C07 / C08) and the key environment of
+    C09 / C10 (HMAC-SHA512, HASH160, tagged SHA-256, Base58Check) -/
+def realHashes : Hashes := ⟨Driver.Hs, KeyDrv.keyEnv none none⟩
 
-def concreteOps : Ops HD where
-  sha := sha256
-  hash160 := fun b => ripemd160 (sha256 b)
-  secOf := fun sk c => (PrivateKey.sec KeyDrv.secpOps ⟨ofBe sk, c, 0⟩).getD []
-  derive := fun k path => k.derive env (path.map Int.ofNat)
-  hdSecret := fun k => match k.key with
-    | .priv pk => beN 32 pk.secret
-    | .pub _ => []
-  hdFingerprint := fun k => (k.myFingerprint env).getD []
-  tapTweak := fun sk h =>
-    (PrivateKey.taprootTweak KeyDrv.secpOps env ⟨ofBe sk, true, 0⟩ h).map (fun k => beN 32 k.secret)
-  ecdsaSign := fun sk h =>
-    match PySecp.privateKeySign (fun ex => PySecp.ecdsaSign Driver.E Driver.Hs Driver.fuel h sk ex) true with
-    | some (sig, _) => PySecp.ecdsaSignatureSerializeDer sig
-    | none => none
-  schnorrSign := fun sk h => PySecp.schnorrsigSign Driver.E Driver.Hs h sk none
-  orderD := id
-  orderK := id
+/-- the curve record of the key models the signing model runs over: the BRIDGED record of the C07 / C08 curve
+    (`toKeys Crypto.secpOps`), so that the object corresponded with embit is the object `Props/C02Y` speaks about -/
+abbrev HD := HDKey (toKeys Driver.E)
+def env : Env := realHashes.env
+
+/-- the `Ops` instance of the driver IS `opsOf` over the executable secp256k1 and the executable hashes -/
+def concreteOps : Ops HD := opsOf Driver.E realHashes Driver.fuel
+
+/-- tokens are parsed over the key driver's curve record; both records have `Secp.Pt` as their points -/
+def convKey : KeyObj KeyDrv.secpOps → KeyObj (toKeys Driver.E)
+  | .priv k => .priv k
+  | .pub k => .pub ⟨k.point, k.compressed⟩
+
+def convHD (k : KeyDrv.HD) : HD :=
+  { key := convKey k.key, chainCode := k.chainCode, version := k.version, depth := k.depth,
+    fingerprint := k.fingerprint, childNumber := k.childNumber }
 
 def tokSingle : TokM (Single HD) := do
   let kind ← tok
@@ -49,15 +54,15 @@ def tokSingle : TokM (Single HD) := do
     pure (.wif s (c != 0))
   else if kind == "hd" then
     let k ← KeyDrv.tokHD
-    pure (.hd k)
+    pure (.hd (convHD k))
   else if kind == "keyhd" then
     let k ← KeyDrv.tokHD
     let fp ← tokOptBytes
     match fp with
-    | none => pure (.keyHd k none)
+    | none => pure (.keyHd (convHD k) none)
     | some f =>
       let path ← tokCounted tokNat
-      pure (.keyHd k (some (f, path)))
+      pure (.keyHd (convHD k) (some (f, path)))
   else if kind == "keypub" then pure .keyPub
   else failure
 
@@ -107,6 +112,15 @@ def handle (op : String) (args : List String) : Option String :=
       | none => pure "none"
       | some (_, n, ws) =>
         pure (joinToks (["ok", toString n] ++ ws.flatMap fun (i, sl, v) => [toString i, showSlot sl, toHexP v]))
+  | "sign.verify" => do
+    let (sg, a, b) ← runTok (do let sg ← tokSigner; let a ← tokOptNat; let b ← tokBytes; pure (sg, a, b)) args
+    match Psbt.parse concreteKeyOps sha256 0 b with
+    | none => pure "none"
+    | some p =>
+      match signWith concreteOps sg a p with
+      | none => pure "none"
+      | some (_, _, ws) =>
+        pure ("ok " ++ toString (ws.filter (fun w => !writeValid Driver.E Driver.Hs p w)).length ++ " " ++ toString ws.length)
   | "sign.view" => do
     let (sg, a, b) ← runTok (do let sg ← tokSigner; let a ← tokOptNat; let b ← tokBytes; pure (sg, a, b)) args
     match Psbt.parse concreteKeyOps sha256 0 b with
